@@ -2,6 +2,7 @@
    Bzip2.SpecR.bzip2_prog is a Gallina port of libbzip2's decoder; the
    correspondence check ties bzip2.Reader to it and libbzip2 (cgo) validates
    both on every run. *)
+From V Require Import Bzip2.StreamRoundTrip.
 From V Require Import Base.Prelude Base.Prog Bzip2.Common Bzip2.SpecR Bzip2.SpecW Bzip2.Thms Life.ReadLoop Bzip2.Safe.
 
 (* the Read wrapper over the bzip2 decoder program: for every input, every
@@ -44,3 +45,14 @@ Theorem bzip2_decoder_total : forall input,
   end.
 Proof. exact bzip2_decode_total. Qed.
 Print Assumptions bzip2_decoder_total.
+
+(* CONCATENATED STREAMS, for every list of inputs: the concatenation of any number of Writer
+   outputs (any levels) is decoded by the Reader model to the concatenation of the inputs and
+   consumed to the last byte - the multi-stream clause of the property on Writer-produced
+   members *)
+Theorem bzip2_concatenated_members_decode_to_concatenation : forall inputs,
+  inputs <> [] -> inputs_ok inputs ->
+  bzip2_decode (encode_all inputs) =
+  mkBZ None (concat (map snd inputs)) (N.of_nat (length (encode_all inputs))).
+Proof. exact bzip2_roundtrip_multi. Qed.
+Print Assumptions bzip2_concatenated_members_decode_to_concatenation.
